@@ -312,6 +312,11 @@ def r07_2(ctx):
                         inner = _elem_ty(ty)
                         if inner and inner in aty:
                             continue   # same family: closed under the summary
+                        # `c.extend(xs.iter().map(|x| <value>))`: the closure's value is what gets inserted
+                        a0 = strip_transparent(n["args"][0])
+                        if a0.get("k") == "MethodCall" and a0.get("method") == "map" and a0.get("args") and strip_transparent(a0["args"][0]).get("k") == "Closure":
+                            out.append((b, strip_transparent(a0["args"][0])["body"]))
+                            continue
                         closed = False
         return out, closed
 
